@@ -336,22 +336,22 @@ def _formatSystem(event: LogEvent) -> str:
     @return: A formatted string representing the "log_system" key.
     """
     system = cast(Optional[str], event.get("log_system", None))
-    if system is None:
-        level = cast(Optional[NamedConstant], event.get("log_level", None))
-        if level is None:
-            levelName = "-"
-        else:
-            levelName = level.name
+    try:
+        if system is None:
+            level = cast(Optional[NamedConstant], event.get("log_level", None))
+            if level is None:
+                levelName = "-"
+            else:
+                levelName = level.name
 
-        system = "{namespace}#{level}".format(
-            namespace=cast(str, event.get("log_namespace", "-")),
-            level=levelName,
-        )
-    else:
-        try:
+            system = "{namespace}#{level}".format(
+                namespace=cast(str, event.get("log_namespace", "-")),
+                level=levelName,
+            )
+        else:
             system = str(system)
-        except Exception:
-            system = "UNFORMATTABLE"
+    except BaseException:
+        system = "UNFORMATTABLE"
     return system
 
 
